@@ -44,6 +44,7 @@ EXPECTED_PROBES = ['prev_mid_http', 'prev_mid_frame_header', 'prev_mid_ext_len',
                    'prev_close_truncated_reason', 'prev_bad_utf8_text',
                    'prev_inflate_error', 'prev_sent_compressed',
                    'last_declines_compression', 'last_with_compression',
+                   'compress_switched_off_before_last',
                    'threaded_reconnect', 'thread_frozen']
 
 ENDINGS = ['mid_http', 'mid_frame_header', 'mid_ext_len', 'mid_payload',
@@ -328,7 +329,10 @@ def make_case(family, i, rng, tier):
             'close_last': rng.choice(['server', 'app', 'none', 'early_app']),
             # the server of the LAST connection may decline the extension
             # although earlier connections negotiated it
-            'last_declines': compress and rng.random() < 0.25}
+            'last_declines': compress and rng.random() < 0.25,
+            # the application switches the compress attribute off before the
+            # last connect; the server enables the extension regardless
+            'toggle_off': compress and rng.random() < 0.1}
 
 
 def _prev_conn(e, compress, attempt):
@@ -441,6 +445,9 @@ def _prev_conn(e, compress, attempt):
 
 def _last(case, attempt):
     compress = case['compress'] and not case.get('last_declines')
+    unsolicited = bool(case.get('toggle_off')) and compress
+    if unsolicited:
+        compress = False
     dp = peer.DeflatePeer()
 
     def transform(payload, it):
@@ -464,7 +471,8 @@ def _last(case, attempt):
     else:
         tail = [S.eof(after=2500037)]
     sc = ST.stream_scenario(case, enc, tail,
-                            extra_headers=[EXT] if compress else ())
+                            extra_headers=[EXT] if compress or unsolicited
+                            else ())
     conn = sc['conns'][0]
     if any(e['kind'] == 'failover' for e in case['prev']):
         # two addresses here as well: the first one accepts, the second
@@ -500,6 +508,11 @@ def build(case):
             'wake_latency': {'*': 50}}
     conn_ref, rules_ref, enc = _last(case, 0)
     ref = dict(base, conns=[conn_ref], app=rules_ref, n_connects=1)
+    toggle = bool(case.get('toggle_off')) and case['compress'] and \
+        not case.get('last_declines')
+    if toggle:
+        # the reference never offered compression
+        ref['ws'] = dict(base['ws'], compress=False)
     conns = []
     rules = []
     abandon_seen = False
@@ -522,6 +535,10 @@ def build(case):
                                     'nth': 0, 'attempt': n},
                            'do': [{'op': 'release_old'}]}] + rules_last
             break
+    if toggle:
+        rules_last = [{'when': {'name': 'connecting', 'attempt': n},
+                       'do': [{'op': 'set_attr', 'name': 'compress',
+                               'value': False}]}] + rules_last
     chain = dict(base, conns=conns + [conn_last], app=rules + rules_last,
                  n_connects=n + 1)
     return ref, chain, enc.expected
@@ -577,7 +594,8 @@ def execute(case):
     kinds = [e['kind'] for e in case['prev']]
     for k in kinds:
         res.stats['probe:prev_' + k] += 1
-    if case['compress'] and not case.get('last_declines'):
+    if case['compress'] and not case.get('last_declines') and \
+            not case.get('toggle_off'):
         res.stats['probe:last_with_compression'] += 1
     if case.get('last_declines'):
         res.stats['probe:last_declines_compression'] += 1
@@ -635,6 +653,15 @@ def execute(case):
         # have arrived: a prefix is what construction guarantees
         res.stats['probe:closed_before_ready_on_last'] += 1
         exp = exp[:len(got_ref)]
+    if case.get('toggle_off') and case['compress'] and \
+            not case.get('last_declines'):
+        # an extension nobody offered: the fresh object rejects the reply
+        res.stats['probe:compress_switched_off_before_last'] += 1
+        exp = []
+        if 'rejected' not in names_ref or 'ready' in names_ref:
+            res.bad('C17/fresh_object_wrong',
+                    'unsolicited extension accepted by a fresh object: %s'
+                    % names_ref[-8:])
     if got_ref != exp:
         res.bad('C17/fresh_object_wrong',
                 'a freshly constructed WebSocket did not produce the '
